@@ -386,7 +386,7 @@ func (e *Exec) fieldDescs(cons []DCons) sod.FieldDescMap {
 	fds := sod.FieldDescriptors(&T{})
 	for _, c := range cons {
 		if err := fds.Constraint(c.Path, sod.Constraints{
-			Index:  strings.Contains(c.C, "i") || strings.Contains(c.C, "u"),
+			Index:  strings.Contains(c.C, "i"), // "u" alone: Unique WITHOUT Index (a custom schema may say so)
 			Unique: strings.Contains(c.C, "u"),
 			Upper:  strings.Contains(c.C, "U"),
 			Lower:  strings.Contains(c.C, "L")}); err != nil {
@@ -401,11 +401,7 @@ func consOf(cons []DCons, path string) string {
 	for i := len(cons) - 1; i >= 0; i-- {
 		c := cons[i]
 		if c.Path == path {
-			s := c.C
-			if strings.Contains(s, "u") && !strings.Contains(s, "i") {
-				s += "i"
-			}
-			return s
+			return c.C
 		}
 	}
 	return ""
@@ -791,7 +787,7 @@ func (e *Exec) Run(op Op) {
 		}))
 
 	case "aidx":
-		e.emit(fmt.Sprintf("aidx %s", hx(op.Field)), guard(func() string { return e.assignIndexInto(op.Field, op.Alt == 1) }))
+		e.emit(fmt.Sprintf("aidx %s", hx(op.Field)), guard(func() string { return e.assignIndexInto(op.Field, op.Alt >= 1) }))
 
 	case "consistent":
 		e.emit("consistent", guard(func() string { return e.consistent() }))
